@@ -267,13 +267,14 @@ func maxPayloadFor(matcher byte, blockSize int64, dictCap int, want int) int {
 	if matcher == byte(lzma.BinaryTree) && m > 16<<10 {
 		m = 16 << 10
 	}
-	if blockSize > 0 && blockSize < 64 {
-		lim := int(blockSize) * 120
+	if blockSize > 0 {
+		// every block sets up a coder with its own dictionary and match finder
+		blocks := int64(120)
 		if dictCap == 0 || dictCap > 1<<20 {
-			lim = int(blockSize) * 12
+			blocks = 12
 		}
-		if m > lim {
-			m = lim
+		if lim := blockSize * blocks; int64(m) > lim {
+			m = int(lim)
 		}
 	}
 	return m
